@@ -9,6 +9,10 @@ BOB = "import sys; from bob.scripts import bob; sys.exit(bob())"
 QUERY = r"""
 import json, sys, os
 from bob.input import RecipeSet
+if os.environ.get('VERIF_NOMEMO') == '1':
+    # oracle: the same calculation with the in-memory package memoisation switched off (every lookup misses)
+    import bob.input
+    bob.input.PackageMatcher.matches = lambda self, *a, **k: False
 rs = RecipeSet()
 defines = dict(a.split('=', 1) for a in sys.argv[2:])
 rs.defineHook = None
